@@ -166,8 +166,7 @@ def c06(cfg):
     P = bd.Problem(refcfg, E=E, classes=None, terms_data={(1,): H1_eig})
     if cfg.get("fd"):
         # custom solvers cannot be combined with fully_diagonalize: use carrier A when the gaps allow, else skip
-        P.carrier = "A"
-        P.check_dyadic()
+        P.carrier = "C"  # exact sympy mode handles fully_diagonalize with arbitrary rational gaps
     ref_series = P.run()
     dimsB = nB
 
@@ -367,6 +366,12 @@ def configs(tier):
         cfgs.append(dict(hermitian=herm, n=4, explicit=[2], basis="hadamard", spectrum=["0", "0", "3", "7"], max_order=3))  # degenerate explicit level
         cfgs.append(dict(hermitian=herm, n=4, explicit=[2], basis="complex", spectrum=["0", "2", "3", "7"], max_order=3))
         cfgs.append(dict(hermitian=herm, n=4, explicit=[2], basis="complex_hadamard", spectrum=["1", "1", "4", "6"], max_order=2))
+        # degenerate explicit level whose eigenvectors are NOT adjacent in the supplied basis
+        cfgs.append(dict(hermitian=herm, n=4, explicit=[3], basis="hadamard", spectrum=["2", "1", "2", "7"], max_order=2))
+        cfgs.append(dict(hermitian=herm, n=5, explicit=[3], basis="complex_hadamard", spectrum=["2", "1", "2", "7", "4"], max_order=2))
+        # full diagonalisation of an explicit block in implicit mode (explicit-explicit and in-block gaps dyadic)
+        cfgs.append(dict(hermitian=herm, n=4, explicit=[2], basis="hadamard", spectrum=["0", "2", "3", "7"], max_order=3, fd=[0]))
+        cfgs.append(dict(hermitian=herm, n=4, explicit=[2, 1], basis="complex", spectrum=["0", "2", "1", "7"], max_order=2, fd=[0]))
         # explicit subspace with a genuinely complex projector (P^T != P^dagger)
         cfgs.append(dict(hermitian=herm, n=3, explicit=[1], basis="complex", spectrum=["0", "2", "3"], max_order=3))
         cfgs.append(dict(hermitian=herm, n=4, explicit=[1], basis="complex_hadamard", spectrum=["0", "2", "3", "7"], max_order=3))
@@ -396,6 +401,8 @@ def configs_c16_direct(tier):
         cfgs.append(dict(hermitian=herm, n=4, explicit=[2], basis="hadamard", spectrum=["0", "0", "3", "7"], _job="direct"))
         cfgs.append(dict(hermitian=herm, n=4, explicit=[1, 1], basis="complex_hadamard", spectrum=["0", "2", "3", "7"], _job="direct"))
         cfgs.append(dict(hermitian=herm, n=3, explicit=[1], basis="complex", spectrum=["0", "2", "3"], _job="direct"))
+        cfgs.append(dict(hermitian=herm, n=4, explicit=[3], basis="hadamard", spectrum=["2", "1", "2", "7"], _job="direct"))
+        cfgs.append(dict(hermitian=herm, n=5, explicit=[3, 1], basis="complex_hadamard", spectrum=["2", "1", "2", "4", "7"], _job="direct"))
         if not herm:
             cfgs.append(dict(hermitian=False, n=3, explicit=[1], basis="biorth", spectrum=["0", "1", "3"], _job="direct"))
             cfgs.append(dict(hermitian=False, n=4, explicit=[2], basis="biorth_complex", spectrum=["1", "1", "4", "6"], _job="direct"))
